@@ -1878,3 +1878,93 @@ pub fn regenerate_id<'a>(id: &'a str, strategy: &'a IdStrategy) -> String {
         }
     }
 }
+
+#[cfg(feature = "verif-dump")]
+impl<HandleType> IdMap<HandleType>
+where
+    HandleType: Handle,
+{
+    /// Read-only dump (verification hook): sorted list of `[id, handle]`
+    pub fn verif_dump(&self) -> serde_json::Value {
+        let mut v: Vec<(&String, usize)> =
+            self.data.iter().map(|(k, h)| (k, h.as_usize())).collect();
+        v.sort();
+        serde_json::json!({
+            "entries": v.into_iter().map(|(k, h)| serde_json::json!([k, h])).collect::<Vec<_>>(),
+            "resolve_temp_ids": self.resolve_temp_ids,
+        })
+    }
+}
+
+#[cfg(feature = "verif-dump")]
+impl<A, B> RelationMap<A, B>
+where
+    A: Handle,
+    B: Handle,
+{
+    /// Read-only dump (verification hook): inner vectors in stored order, including empty ones
+    pub(crate) fn verif_dump(&self) -> serde_json::Value {
+        serde_json::Value::Array(
+            self.data
+                .iter()
+                .map(|v| {
+                    serde_json::Value::Array(
+                        v.iter().map(|b| serde_json::json!(b.as_usize())).collect(),
+                    )
+                })
+                .collect(),
+        )
+    }
+}
+
+#[cfg(feature = "verif-dump")]
+impl<A, B> RelationBTreeMap<A, B>
+where
+    A: Handle,
+    B: Handle,
+{
+    /// Read-only dump (verification hook): `[[a, [b...]]...]` in key order
+    pub(crate) fn verif_dump(&self) -> serde_json::Value {
+        serde_json::Value::Array(
+            self.data
+                .iter()
+                .map(|(a, v)| {
+                    serde_json::json!([
+                        a.as_usize(),
+                        v.iter().map(|b| b.as_usize()).collect::<Vec<_>>()
+                    ])
+                })
+                .collect(),
+        )
+    }
+}
+
+#[cfg(feature = "verif-dump")]
+impl<A, B, C> TripleRelationMap<A, B, C>
+where
+    A: Handle,
+    B: Handle,
+    C: Handle,
+{
+    /// Read-only dump (verification hook)
+    pub(crate) fn verif_dump(&self) -> serde_json::Value {
+        serde_json::Value::Array(self.data.iter().map(|m| m.verif_dump()).collect())
+    }
+}
+
+#[cfg(feature = "verif-dump")]
+impl<A, B> ExclusiveRelationMap<A, B>
+where
+    A: Handle,
+    B: Handle,
+{
+    /// Read-only dump (verification hook)
+    pub(crate) fn verif_dump(&self) -> serde_json::Value {
+        serde_json::Value::Array(
+            self.data
+                .iter()
+                .map(|(a, b)| serde_json::json!([a.as_usize(), b.as_usize()]))
+                .collect(),
+        )
+    }
+}
